@@ -11,14 +11,15 @@ mod verif_c14_intset_cmp {
 
     fn mem(a: u8, b: u8, inv: bool, x: u8) -> bool { (a <= x && x <= b) != inv }
 
-    //@defaults unit=U14.4 props=C14 tier=thorough level=bounded bound="u8 domain; each operand = one symbolic range, optionally inverted" timeout=2400
+    //@defaults unit=U14.4 props=C14 tier=thorough level=bounded bound="u8 domain; s = one symbolic range stored inclusively, t = complement of one symbolic range stored exclusively" timeout=2400
     //@harness fns=IntSet::cmp,IntSet::eq,IntSet::invert,IntSet::insert_range,IntSet::iter_ranges
     #[kani::proof]
     #[kani::unwind(12)]
     fn intset_cmp_mixed_modes() {
         let (a1, b1, a2, b2): (u8, u8, u8, u8) = (kani::any(), kani::any(), kani::any(), kani::any());
         kani::assume(a1 <= b1 && a2 <= b2);
-        let (i1, i2): (bool, bool) = (kani::any(), kani::any());
+        // mixed storage modes: s stored inclusively, t stored as the complement of its range
+        let (i1, i2): (bool, bool) = (false, true);
         let mut s: IntSet<u8> = IntSet::empty();
         s.insert_range(a1..=b1);
         if i1 { s.invert(); assert!(s.is_inverted()); }
@@ -52,7 +53,7 @@ mod verif_c14_intset_cmp {
             assert!(c == expect);
             assert!(s != t);
         }
-        kani::cover!(least && i1 && !i2);
-        kani::cover!(least && !i1 && i2 && c == Ordering::Greater);
+        kani::cover!(least && c == Ordering::Less);
+        kani::cover!(least && c == Ordering::Greater);
     }
 }
